@@ -335,10 +335,19 @@ def mcall(self, e, want=None):
         return self.expr_top(e, want)
     # iterator consumers
     if name in ('sum', 'product', 'fold', 'count', 'logsumexp', 'all', 'any', 'position', 'last', 'max_by',
-                'min_by', 'collect', 'for_each', 'unzip'):
-        r = self.iter_consumer(e, want)
-        if r is not None:
-            return r
+                'min_by', 'collect', 'for_each', 'unzip', 'try_for_each'):
+        recv_is_struct = False
+        try:
+            saved_notes = list(self.tr.cur_notes)
+            _rs, _rt = self.expr_top(recv)
+            self.tr.cur_notes[:] = saved_notes
+            recv_is_struct = is_struct(_rt)
+        except Unsupported:
+            pass
+        if not recv_is_struct:
+            r = self.iter_consumer(e, want)
+            if r is not None:
+                return r
     if name in ('map', 'zip', 'enumerate', 'rev', 'skip', 'take', 'filter', 'chain', 'scan'):
         try:
             rs, rt = self.expr_top(recv)
@@ -537,6 +546,9 @@ def iter_consumer(self, e, want):
         init, ti = self.expr_top(args[0], want)
         f, ft = self.closure(args[1], [ti, et])
         return f'(List.foldl {f} {init} {lst})', ti
+    if name == 'try_for_each':
+        f, ft = self.closure(args[0], [et])
+        return f'(tryForEach {f} {lst})', ('except', 'unit')
     if name in ('all', 'any'):
         f, ft = self.closure(args[0], [et])
         return f'(List.{name} {lst} {f})', 'bool'
